@@ -107,6 +107,16 @@ def distribute(
                 )
                 break
 
+    # The computations that are pinned on an agent must fit on it.
+    for agent in agentsdef:
+        pinned_footprint = sum(
+            f for a, f in fixed_mapping.values() if a == agent.name
+        )
+        if pinned_footprint > agent.capacity:
+            raise ImpossibleDistributionException(
+                f"Computations with hosting cost 0 on {agent.name} exceed its capacity"
+            )
+
     # Sort computation by footprint, but add a random element to avoid sorting on names
     computations = [
         (computation_memory(n), n, None, random.random())
